@@ -186,12 +186,33 @@ func generate(r *ev.Run, pairs int) ([]*caseIn, map[string]int) {
 			continue
 		}
 		stats["definitions_accepted"]++
+		var walkReqs func(l []*rReq, depth int)
+		noMax := false
+		walkReqs = func(l []*rReq, depth int) {
+			for _, q := range l {
+				if q.Rule == "pick" {
+					k := fmt.Sprintf("pick{count:%v,min:%v,max:%v}", q.Count != nil, q.Min != nil, q.Max != nil)
+					r.Distinct("pick_bound_subsets", k)
+					if q.Max == nil && q.Count == nil {
+						noMax = true
+					}
+				}
+				if depth > stats["max_requirement_depth"] {
+					stats["max_requirement_depth"] = depth
+				}
+				walkReqs(q.Nested, depth+1)
+			}
+		}
 		if ds.broken != "" {
 			stats["definitions_edge_accepted"]++
 		}
 		rd, err := readDef(raw)
 		if err != nil {
 			r.Fatalf("reference cannot read definition: %v", err)
+		}
+		walkReqs(rd.Reqs, 1)
+		if noMax {
+			stats["definitions_with_pick_without_count_and_max"]++
 		}
 		nW := 1 + g.weighted(5, 4, 1)
 		for k := 0; k < nW && len(cases) < pairs; k++ {
